@@ -220,7 +220,8 @@ def check_packet(ctx, rng, is_data, kind, content_len, mut_budget):
         if svk:
             t_, ts_, vs_, ve_ = svk[-1]
             head, tail = b0[vs0:ts_], b0[ve_:ve0]
-            for lab, repl in (('drop-sig-value', b''), ('empty-sig-value', rc.enc_tlv(t_, b'')), ('short-sig-value', rc.enc_tlv(t_, b0[vs_:ve_ - 1] if ve_ > vs_ else b'\x00'))):
+            for lab, repl in (('drop-sig-value', b''), ('empty-sig-value', rc.enc_tlv(t_, b'')), ('short-sig-value', rc.enc_tlv(t_, b0[vs_:ve_ - 1] if ve_ > vs_ else b'\x00')),
+                              ('zero-padded-sig-value', rc.enc_tlv(t_, b0[vs_:ve_] + b'\x00' * rng.choice([1, 2, 8]))), ('ff-padded-sig-value', rc.enc_tlv(t_, b0[vs_:ve_] + b'\xff'))):
                 muts.append((lab, rc.enc_tlv(6 if is_data else 5, head + repl + tail)))
     except (rc.Reject, KeyError):
         pass
@@ -300,9 +301,34 @@ def c01_len(n):
     return '<253' if n < 253 else '<65536' if n < 65536 else 'big'
 
 
+def signature_value_sweep(ctx, rng):
+    """Many signatures of one key: every shape of signature value the signer can emit (DER lengths, leading / trailing zero octets)
+    must be accepted by the matching verifier."""
+    for kind in ('ecdsa256', 'ed25519', 'hmac'):
+        signer, sinfo = pkts.make_signer(rng, kind, gen.simple_name(rng, 2, 3))
+        fns = [(label, fn) for label, fn, strict in verifiers_for(rng, sinfo) if not label.startswith('union')]
+        for i in range(ctx.n(1200 if kind == 'ecdsa256' else 200, 40000)):
+            wire = bytes(make_data([rc.comp(8, b's'), rc.comp(8, str(i).encode())], MetaInfo(), b'', signer))
+            name, sig = parse_any(True, wire)
+            sv = bytes(sig.signature_value_buf)
+            ctx.klass(f'sig-value:{kind}:len={len(sv)}:last-octet-{"zero" if sv[-1:] == bytes(1) else "nonzero"}')
+            for label, fn in fns:
+                try:
+                    ok = fn(name, sig)
+                except Exception as e:   # noqa
+                    ok = e
+                if ok is not True:
+                    ctx.report(f'verifier-rejects-valid:{label}', f'{label} does not accept an untampered packet (signature value {len(sv)} octets, ends in {sv[-1:].hex()}): {ok!r}',
+                               {'wire': wire, 'signer': kind})
+            ctx.event('verify-valid')
+        ctx.case(('sig-sweep', kind), nontrivial=True)
+
+
 def run(ctx):
     ctx.rule = RULE
     rng = ctx.rng
+    if ctx.shard == 0:
+        signature_value_sweep(ctx, rng)
     n = ctx.n(36, 4000)
     budget = 260 if ctx.quick else 900
     for i in range(n):
